@@ -179,6 +179,124 @@ def run_trans(inst):
     return out
 
 
+def run_next(inst):
+    """K / one step: the real BaseMatching.next from a predecessor with ARBITRARY symbolic scores (logprob, logprobe, logprobne under
+    the representation invariant logprob = logprobe + logprobne for a non-emitting predecessor, logprobe = logprob and logprobne = 0
+    for an emitting one), chain length, accumulated distances and 'delayed' value, with symbolic cut-offs; every field of the
+    returned entry (or the decision to drop it) is compared with the documented step."""
+    from leuvenmapmatching.util.segment import Segment
+    from symx.absmap import make_absmap_class, P
+    from symx.matchlib import Cfg, make_matcher
+    _, fam, pstate, sstate, pne, ne, length = inst[:7]
+    g = {"A": ["B"], "B": ["C", "A"], "C": ["D"], "D": []} if fam != 'simple_n' else {"A": ["B"], "B": ["C"], "C": []}
+    cfg = Cfg(fam=fam, T=2, ne=True, goingback=False, sym_maxdist=True, sym_init=False, sym_minprob=True, sym_nelf=True, noise_ne=0.5)
+    AbsMap = make_absmap_class()
+    shims.install()
+    name = f"next {fam} {pstate}->{sstate} prev_ne={pne} next_ne={ne} chain_length={length}"
+
+    def seg_m(mp, st, pim, ti):
+        if isinstance(st, tuple):
+            return Segment(st[0], mp.loc[st[0]], st[1], mp.loc[st[1]], P(pim), E.Sym(ti))
+        return Segment(st, mp.loc[st])
+
+    def scenario():
+        eng = E.get_engine()
+        mp = AbsMap(g)
+        mt = make_matcher(eng, mp, cfg)
+        pm = LL.PathModel(mp, mt, cfg)
+        pobs = 0
+        cobs, cne = (0, (2 if pne else 1)) if ne else (1, 0)
+        qp, pim_p, pio_p, ti_p = pm.geo(pstate, pobs, 1 if pne else 0)
+        lp, lpne = z3.Real("lp_prev"), z3.Real("lpne_prev")
+        eng.assume(z3.And(lp <= 0, lpne <= 0))
+        if pne:
+            lpe = lp - lpne
+            eng.assume(lpe <= 0)
+        else:
+            eng.assume(lpne == 0)
+            lpe = lp
+        d_o, d_s = eng.fresh("prev_d_o"), eng.fresh("prev_d_s")
+        eng.assume(z3.And(d_o.t >= 0, d_s.t >= 0))
+        delayed = eng.choose(2, tag="delayed")
+        kw = dict(d_o=d_o, d_s=d_s) if fam == 'dist' else {}
+        if pne:
+            eo_p = Segment("O0", P("o0"), "O1", P("o1"))
+            eo_p.pi = P(pio_p)
+        else:
+            eo_p = Segment("O0", P("o0"))
+        prev = mt.matching(mt, seg_m(mp, pstate, pim_p, ti_p), eo_p, logprob=E.Sym(lp), logprobe=E.Sym(lpe), logprobne=(E.Sym(lpne) if pne else 0),
+                           obs=pobs, obs_ne=1 if pne else 0, length=length, delayed=delayed, dist_obs=0.0, **kw)
+        # the successor segment as the matcher builds it (positions are filled in by next())
+        em = Segment(sstate[0], mp.loc[sstate[0]], sstate[1], mp.loc[sstate[1]]) if isinstance(sstate, tuple) else Segment(sstate, mp.loc[sstate])
+        eo = Segment("O0", P("o0"), "O1", P("o1")) if ne else Segment("O1", P("o1"))
+        m = prev.next(em, eo, obs=cobs, obs_ne=cne)
+        info = dict(logprob=lp, logprobe=lpe, logprobne=(lpne if pne else z3.RealVal(0)), length=length, pim=pim_p, pio=pio_p, ti=ti_p,
+                    d_o=d_o.t, d_s=d_s.t)
+        return dict(m=m, prev=prev, info=info, pm=pm, mt=mt, cobs=cobs, cne=cne, delayed=delayed)
+
+    def claims(eng, v):
+        pm, info, m, mt = v['pm'], v['info'], v['m'], v['mt']
+        q, pim, pio, ti = pm.geo(sstate, v['cobs'], v['cne'])
+        em = -q / E.rv(pm.sig2_ne if ne else pm.sig2)
+        tr, d_o, d_s = pm.trans_term(info, pstate, pne, sstate, ne, pim, pio, ti, None)
+        delta = tr + em
+        if not ne:
+            lpe, lpne, lp, ln = info['logprob'] + delta, z3.RealVal(0), info['logprob'] + delta, length + 1
+        else:
+            lpe = info['logprobe'] + pm.nelf
+            lpne = z3.If(delta < info['logprobne'], delta, info['logprobne'])
+            lp, ln = lpe + lpne, length
+        md = mt.max_dist
+        ml = mt.min_logprob_norm.t
+        stop_strict = z3.Or(lp / ln < ml - LL.TOL, q > md.sq)
+        stop_loose = z3.Or(lp / ln < ml + LL.TOL, q > md.sq)
+        node_rule = z3.BoolVal(False)
+        if fam == 'simple_n' and isinstance(sstate, tuple) and not ne:
+            eps = z3.Q(1, 10 ** 8)
+            node_rule = z3.Or(z3.And(ti <= eps, ti >= -eps), z3.And(ti - 1 <= eps, ti - 1 >= -eps))
+        cl = []
+        if m is None:
+            cl.append(('dropped_only_if_a_cut_off_applies', z3.Or(stop_loose, node_rule)))
+            return cl
+        cl.append(('kept_only_if_no_cut_off_applies', z3.And(z3.Not(stop_strict), z3.Not(node_rule))))
+        cl.append(('logprob', LL.near(m.logprob, lp)))
+        cl.append(('logprobe', LL.near(m.logprobe, lpe)))
+        cl.append(('logprobne', LL.near(m.logprobne, lpne)))
+        cl.append(('dist_obs', LL.radicand(m.dist_obs) == q))
+        ok = (m.length == ln and m.obs == v['cobs'] and m.obs_ne == v['cne'] and not m.stop and m.delayed == v['delayed']
+              and m.prev == {v['prev']} and all(p is v['prev'] for p in m.prev) and m.shortkey == sstate)
+        cl.append((f'bookkeeping (length={m.length}, obs={m.obs},{m.obs_ne}, delayed={m.delayed}, stop={m.stop})', z3.BoolVal(bool(ok))))
+        cl.append(('not_more_probable_than_predecessor', E.lift(m.logprob) <= info['logprob'] + LL.TOL))
+        if fam == 'dist':
+            cl.append(('d_o', LL.near(m.d_o, d_o)))
+            cl.append(('d_s', LL.near(m.d_s, d_s)))
+        return cl
+
+    def confirm(eng, model, v, cname):
+        if not isinstance(v, dict):
+            return dict(desc=f"BaseMatching.next {name} raised {type(v).__name__}: {v}", kind='next')
+        return dict(desc=f"BaseMatching.next {name}: {cname} differs from the documented step (prev logprob {E.model_value(model, v['info']['logprob'])}, "
+                         f"result {'dropped' if v['m'] is None else E.model_value(model, E.lift(v['m'].logprob))})", kind='next')
+    out = runner.explore(name, runner.nra_engine(8000) if fam == 'dist' else runner.lra_engine(8000), scenario, claims, confirm=confirm,
+                         witness=lambda eng, v: ['next_dropped' if v['m'] is None else 'next_kept'])
+    shims.uninstall()
+    return out
+
+
+def next_instances(tier):
+    out = []
+    for fam in ('dist', 'simple'):
+        for (p_, s_) in ((("A", "B"), ("A", "B")), (("A", "B"), ("B", "C")), (("A", "B"), ("B", "A"))):
+            for pne, ne in ((False, False), (False, True), (True, True), (True, False)):
+                if ne and s_ == p_:
+                    continue
+                out.append(('next', fam, p_, s_, pne, ne, 3))
+    out += [('next', 'simple_n', "A", "A", False, False, 2), ('next', 'simple_n', "A", ("A", "B"), False, False, 2),
+            ('next', 'simple_n', ("A", "B"), "B", False, False, 2), ('next', 'simple_n', "A", "B", False, True, 2),
+            ('next', 'simple_n', "A", "B", True, False, 1)]
+    return out
+
+
 def trans_instances(tier):
     out = []
     moves = [(("A", "B"), ("A", "B"), None), (("A", "B"), ("B", "A"), None), (("A", "B"), ("B", "C"), None), (("A", "B"), ("X", "Y"), None),
@@ -263,6 +381,8 @@ def run_instance(inst):
         return run_update(inst)
     if inst[0] == 'trans':
         return run_trans(inst)
+    if inst[0] == 'next':
+        return run_next(inst)
     return gabs.run(inst, claims_fn, witness_fn)
 
 
@@ -278,7 +398,7 @@ def main(tier):
                              mb.BaseMatcher._match_non_emitting_states_end, mb.BaseMatcher._build_matching_path)
     budget = 60 if tier == 'quick' else 900
     core_s = 16 * (120 if tier == 'quick' else 900)
-    kres = run_instances(run_instance, [('update', c) for c in ('BaseMatching', 'SimpleMatching', 'DistanceMatching')] + trans_instances(tier))
+    kres = run_instances(run_instance, [('update', c) for c in ('BaseMatching', 'SimpleMatching', 'DistanceMatching')] + trans_instances(tier) + next_instances(tier))
     res = gabs.run_all(rep, run_instance, b_instances(tier), budget, core_s)
     rep.bounds = dict(update="two entries of the same key, symbolic scores and stop flags, every slot of the class",
                       runs="abstract geometry; graphs " + ("line2, oneway3, tri, oneway4" if tier == 'quick' else "all digraphs <=3 nodes/<=4 edges + fork, oneway4, path4") +
@@ -287,7 +407,7 @@ def main(tier):
     rep.outside = ["rounding", "graphs/traces beyond the bound", "G-real projections (pi/ti exactness is C05/C13)"]
     rep.assumptions = ["AbsMap contract", "halfnorm formula shim", "tolerance 1e-8 on re-derived log-probabilities"]
     tags = gabs.collect(rep, list(kres) + list(res), PID,
-                        need_tags=('replaced', 'kept', 'nonemitting_on_best_path', 'history_of_operations', 'trans_call'))
+                        need_tags=('replaced', 'kept', 'nonemitting_on_best_path', 'history_of_operations', 'trans_call', 'next_kept', 'next_dropped'))
     return rep.finish("symbolic execution of the real update()/match()/widen/extend over abstract geometry (SYMX, z3); the reported "
                       "fields along the best path are compared in the solver with an independent re-derivation of the documented model")
 
@@ -299,7 +419,7 @@ def replay_file(path):
         d = json.load(f)
     if d.get('kind') == 'update':
         return replay_update(d)
-    if d.get('kind') == 'trans':
+    if d.get('kind') in ('trans', 'next'):
         print(d['observed'])
         return 1
     return gabs.replay(path, claims_fn)
